@@ -261,6 +261,11 @@ class TMGRSchedulingComponent(rpu.ClientComponent):
                         self.advance(early_tasks, rps.TMGR_STAGING_INPUT_PENDING,
                                      publish=True, push=True)
 
+                        # these tasks are on their way now: forget them, or
+                        # a pilot which gets removed and added again would
+                        # receive them a second time
+                        del self._early[pid]
+
             # let the scheduler know
             self.add_pilots([pilot['uid'] for pilot in pilots])
 
